@@ -219,7 +219,7 @@ func init() {
 	p3 := registry["C03"]
 	register(&Property{
 		ID: "C04", Level: "exploration",
-		Rule:     "the command histories of C03 (46-symbol alphabet including lines with control octets, binary garbage and multi-step AUTH exchanges against a scripted SASL mechanism, <= 25 commands), each run lock-step, as one write, or under arbitrary segmentation; every message body/chunk carries a unique tag and its own verdict (ok or a unique rejection E-k) that the backend derives from the content it actually read; aborted deliveries return slowly (up to 4 ms) with an error naming the message they belonged to, so that they complete at any point of what follows. The client stream and the reply stream are walked in tandem by a reference framing model. Non-trivial: >= 3 commands; distinct by (symbol sequence, discipline, mode, limits, backend flavour).",
+		Rule:     "the command histories of C03 (46-symbol alphabet including lines with control octets, binary garbage and multi-step AUTH exchanges against a scripted SASL mechanism, <= 25 commands), each run lock-step, as one write, or under arbitrary segmentation; every message body/chunk carries a unique tag and its own verdict (ok or a unique rejection E-k) that the backend derives from the content it actually read; aborted deliveries return slowly (up to 4 ms) with an error naming the message they belonged to, so that they complete at any point of what follows. The client stream and the reply stream are walked in tandem by a reference framing model. Non-trivial: >= 3 commands; distinct by (symbol sequence, discipline, mode, limits, backend flavour). Early-refusing backends and callbacks slower than ReadTimeout as in C03; every message the backend was handed in full must get its final reply.",
 		Gen:      genC04,
 		Check:    checkC04,
 		Classify: classifyHist,
